@@ -187,28 +187,44 @@ fn listing(root: &std::path::Path) -> Vec<Sx> {
     v.into_iter().map(|s| hex(s.as_bytes())).collect()
 }
 
-/// (tmp cs threads comp n_items exit k drop_order default_dir): one lifetime of a sorter; prints directory listings
+/// (tmp (steps ...) n_items exit k drop_order where): one lifetime of a sorter; prints recursive listings of a scratch
+/// root holding `c` (the configured directory, with a file and a sub-directory in it) and `o` (where TMPDIR points when a
+/// directory is configured explicitly).  steps = builder calls in the given order: (dir) (cs n) (threads n) (comp n).
+/// where = dir | env (no with_tmp_dir: TMPDIR=c) | missing (with_tmp_dir(c/not-there/x), which does not exist).
 pub fn run_tmp(args: &[Sx]) -> Sx {
     with_panic(|emit| {
         let root = tempfile::tempdir_in(scratch()).expect("glue: tempdir");
-        std::fs::write(root.path().join("keep.txt"), b"x").unwrap();
-        std::fs::create_dir(root.path().join("keepdir")).unwrap();
-        std::fs::write(root.path().join("keepdir").join("inner"), b"y").unwrap();
-        let n = args[3].usize();
-        let exit = args[4].atom().to_string();      // returned | panic_input | panic_cmp
-        let at = args[5].usize();                  // position of the panic / number of items consumed
-        let order = args[6].atom().to_string();     // iter_first | sorter_first
-        let use_env = args[7].atom() == "env";
+        let conf = root.path().join("c");
+        let other = root.path().join("o");
+        std::fs::create_dir(&conf).unwrap();
+        std::fs::create_dir(&other).unwrap();
+        std::fs::write(conf.join("keep.txt"), b"x").unwrap();
+        std::fs::create_dir(conf.join("keepdir")).unwrap();
+        std::fs::write(conf.join("keepdir").join("inner"), b"y").unwrap();
+        let n = args[1].usize();
+        let exit = args[2].atom().to_string();      // returned | panic_input | panic_cmp
+        let at = args[3].usize();                  // position of the panic / number of items consumed
+        let order = args[4].atom().to_string();     // iter_first | sorter_first
+        let wh = args[5].atom().to_string();
+        let cfg = if wh == "missing" { conf.join("not-there").join("x") } else { conf.clone() };
+        std::env::set_var("TMPDIR", if wh == "env" { &conf } else { &other });
         let before = listing(root.path());
         let during = RefCell::new(Vec::<Sx>::new());
         let snap = || during.borrow_mut().push(Sx::L(listing(root.path())));
+        let built = RefCell::new(true);
         let r = std::panic::catch_unwind(std::panic::AssertUnwindSafe(|| {
             let mut b = ExternalSorterBuilder::new();
-            if use_env { std::env::set_var("TMPDIR", root.path()); } else { b = b.with_tmp_dir(root.path()); }
-            if args[0].atom() != "default" { b = b.with_chunk_size(args[0].usize()); }
-            if args[1].atom() != "default" { b = b.num_threads(args[1].usize()); }
-            if args[2].atom() != "none" { b = b.with_compression(args[2].u64() as u32); }
-            let sorter = b.build().expect("glue: build sorter");
+            for st in args[0].tagged("steps") {
+                let st = st.list();
+                match st[0].atom() {
+                    "dir" => { if wh != "env" { b = b.with_tmp_dir(&cfg); } }
+                    "cs" => b = b.with_chunk_size(st[1].usize()),
+                    "threads" => b = b.num_threads(st[1].usize()),
+                    "comp" => b = b.with_compression(st[1].u64() as u32),
+                    _ => panic!("glue: builder step"),
+                }
+            }
+            let sorter = match b.build() { Ok(s) => s, Err(_) => { *built.borrow_mut() = false; snap(); return; } };
             snap();
             let exit2 = exit.clone();
             let input = (0..n as u64).map(|i| { if exit2 == "panic_input" && i as usize == at { snap(); panic!("planned input panic"); } ((i * 7919) % 101, i) });
@@ -223,12 +239,52 @@ pub fn run_tmp(args: &[Sx]) -> Sx {
             if exit == "returned" { for _ in 0..at { if it.next().is_none() { break; } } snap(); }
             if order == "iter_first" { drop(it); snap(); drop(sorter); } else { drop(sorter); snap(); let rest = it.count(); let _ = rest; }
         }));
-        if use_env { std::env::remove_var("TMPDIR"); }
+        std::env::remove_var("TMPDIR");
         let after = listing(root.path());
         emit(a("oracle-only"));
         emit(Sx::L(vec![a("unwound"), a(r.is_err() as u8)]));
+        emit(Sx::L(vec![a("built"), a(*built.borrow() as u8)]));
+        emit(Sx::L(vec![a("cfg"), hex(cfg.strip_prefix(root.path()).unwrap().to_string_lossy().as_bytes())]));
         emit(tag("before", before));
         emit(tag("during", during.into_inner()));
         emit(tag("after", after));
+    })
+}
+
+/// xsortrec: the crate's own record types through the external sorter, ordered by BEDLike::compare.
+/// (xsortrec type cs threads comp (recs (rank id record-fields...)...)): `rank` is the position of the record's
+/// (chrom,start,end) among the distinct keys (computed by the generator), so the expected order is by rank;
+/// every returned record must be field-for-field the one supplied under its id.
+fn sort_recs<T>(build: impl Fn(&[Sx]) -> T, args: &[Sx], emit: &dyn Fn(Sx))
+where T: bed_utils::bed::BEDLike + serde::Serialize + serde::de::DeserializeOwned + Send + Clone + PartialEq {
+    let items: Vec<(u64, u64, T)> = args[4].tagged("recs").iter().map(|x| { let l = x.list(); (l[0].u64(), l[1].u64(), build(&l[2..])) }).collect();
+    let orig: std::collections::HashMap<u64, T> = items.iter().map(|x| (x.1, x.2.clone())).collect();
+    let dir = tempfile::tempdir_in(scratch()).expect("glue: tempdir");
+    let sorter = builder(&args[1], &args[2], &args[3], dir.path()).build().expect("glue: build sorter");
+    let it = sorter.sort_by(items, |a: &(u64, u64, T), b: &(u64, u64, T)| a.2.compare(&b.2)).expect("sort_by returned an error");
+    emit(Sx::L(vec![a("len"), a(it.len())]));
+    let mut out = Vec::new();
+    for r in it {
+        match r {
+            Ok((k, id, rec)) => { if orig.get(&id) != Some(&rec) { emit(a("ORACLE-FAIL:record-altered")); } out.push(Sx::L(vec![a("ok"), a(k), a(id)])) }
+            Err(_) => out.push(Sx::L(vec![a("err"), a(0)])),
+        }
+    }
+    emit(tag("out", out));
+}
+pub fn run_xsortrec(args: &[Sx]) -> Sx {
+    use crate::text::{bedn, bp, np};
+    use bed_utils::bed::{BedGraph, GenomicRange};
+    with_panic(|emit| match args[0].atom() {
+        "gr" => sort_recs(|l| GenomicRange::new(l[0].string(), l[1].u64(), l[2].u64()), args, emit),
+        "bed3" => sort_recs(|l| bedn::<3>(l), args, emit),
+        "bed4" => sort_recs(|l| bedn::<4>(l), args, emit),
+        "bed5" => sort_recs(|l| bedn::<5>(l), args, emit),
+        "bed6" => sort_recs(|l| bedn::<6>(l), args, emit),
+        "np" => sort_recs(|l| np(l), args, emit),
+        "bp" => sort_recs(|l| bp(l), args, emit),
+        "bgi" => sort_recs(|l| BedGraph::<i64>::new(l[0].string(), l[1].u64(), l[2].u64(), l[3].i64()), args, emit),
+        "bgf" => sort_recs(|l| BedGraph::<f64>::new(l[0].string(), l[1].u64(), l[2].u64(), f64::from_bits(l[3].u64())), args, emit),
+        _ => panic!("glue: type"),
     })
 }
